@@ -1,4 +1,5 @@
 """C20 — match -> pointer -> patch edits exactly the matched node."""
+import json
 import re
 import jsonpath
 from jsonpath import JSONPatch
@@ -24,6 +25,14 @@ NEWVALS = [None, 7, "new", [1], {"k": True}, True]
 
 
 def gen(rng, tier):
+    # slices whose bounds lie beyond the array in either direction, with steps of either sign: the matched elements'
+    # locations are the NORMALIZED indices
+    for arr in ([10, 20, 30, 40, 50], [[1], [2]], ["a"]):
+        for doc, pre in ((arr, []), ({"0": arr, "k": 1}, [["list", ["name", "0"]]]), (json.loads(json.dumps([arr, arr])), [["list", ["idx", -1]]])):
+            for a, b, c in [(-7, 2, None), (7, None, -2), (-9, None, None), (9, None, -1), (None, -9, -1), (-1, -9, -2), (5, None, -1), (-5, 9, 3),
+                            (None, None, -1), (-6, -3, 1), (1, 99, 2), (99, 0, -3)]:
+                yield {"segs": pre + [["list", ["slice", a, b, c]]], "doc": doc, "new": rng.choice(NEWVALS), "seed": 7}
+                yield {"segs": pre + [["list", ["idx", 0], ["slice", a, b, c]]], "doc": doc, "new": rng.choice(NEWVALS), "seed": 7}
     n = 2500 if tier == "thorough" else 220
     for _ in range(n):
         doc = gen_container(rng, 3, 4, NAMES)
